@@ -250,6 +250,20 @@ def verify_unit(repo, reg, qualname, timeout_ms=10000, instance=None):
             cid = so["name"]
             obl.append(Obligation(qualname, cid, so["pc"], so["goal"], so["kind"], is_prop(cid), so["meta"]))
         res.vacuity["normal_exit_reachable"] = normal_reached
+        # vacuity of the postconditions: some normal-exit (or cut) path must have a path condition the solver does not
+        # refute - an absurd assumption (a contradictory callee summary, say) would make every clause trivially true
+        normal_outs = [o for o in outs if o.kind in ("next", "return", "cut")]
+        if normal_outs:
+            feas = False
+            for o in normal_outs[:12]:
+                if ex.feasible(o.path):
+                    feas = True
+                    break
+            res.vacuity["normal_exit_satisfiable"] = feas
+            if not feas:
+                res.status, res.message = "error", ("every normal-exit path of %s has an unsatisfiable path condition: its "
+                                                    "postconditions would hold vacuously" % qualname)
+                return res
     except Unsupported as e:
         res.status, res.message = "undecided", "unsupported construct in contract of %s: %s" % (qualname, e)
         res.time = time.time() - t0
